@@ -24,7 +24,8 @@ import _thread
 from dsim import common, faults, sched, boot
 from dsim.props.c16 import build_strategy, _gen_strategy
 
-FEATSETS = [(), ('EQUALITY_OPERATORS',), ('BUILTIN_FUNCTIONS', 'LISTS'),
+FEATSETS = [(), ('EQUALITY_OPERATORS',), ('BUILTIN_FUNCTIONS',), ('BUILTIN_FUNCTIONS', 'LISTS'),
+            ('EQUALITY_OPERATORS', 'LISTS'),
             ('ASSERT_STATEMENTS', 'EQUALITY_OPERATORS', 'BUILTIN_FUNCTIONS', 'LISTS')]
 XS = (0, 1, 2, 3, 5, 99)
 
@@ -286,7 +287,7 @@ def init_zygote(lane):
   Z['lane'] = lane
   Z['universes'] = {}
   U = get_universe(lane, 0)
-  feats = _feats(malt, 3)
+  feats = _feats(malt, len(FEATSETS) - 1)
   with common.World():
     pts = faults.discover(
         lambda: malt.to_graph(U['entries'][0].fn, recursive=True,
@@ -437,10 +438,7 @@ def ref_call(U, e, op):
   key = (e.fid, okey, op['x'])
   r = U['ref_call'].get(key)
   if r is None:
-    w = U['worlds'].get((e.fid, okey))
-    if w is None:
-      w = U['worlds'][(e.fid, okey)] = common.World()
-    with w, common.optrace() as tr:
+    with common.World(), common.optrace() as tr:
       o = _run(_call_thunk(malt, api, converter, e.fn, op), e, op['x'], as_bound=True)
     r = (o, _norm_trace(tr))
     U['ref_call'][key] = r
@@ -474,12 +472,11 @@ def _norm_trace(tr):
   return common.jsonable(out)
 
 
-def prepare_job(lane, job):
-  """Zygote-side: make sure every reference the plan needs exists, so that the
-  forked child inherits them (a dropped function cannot be converted later)."""
-  plan = job['plan'] if job.get('mode') == 'explicit' else make_plan(
-      job['seed'], job['index'], job['tier'], job['sub'])
-  job['_plan'] = plan
+def prepare_refs(lane, plan):
+  """Child-side, before the simulation starts: compute every reference the plan
+  needs (a dropped function cannot be converted later).  Done per run, in the
+  forked child, so that the zygote never changes and a reference never depends
+  on which runs a lane happened to execute before."""
   U = get_universe(lane, plan['universe'])
   E = U['entries']
   optsets = set()
@@ -954,10 +951,9 @@ def _same_map(a, b):
 
 
 def run_job(lane, job, rdir):
-  plan = job.get('_plan')
-  if plan is None:
-    plan = job['plan'] if job.get('mode') == 'explicit' else make_plan(
-        job['seed'], job['index'], job['tier'], job['sub'])
+  plan = job['plan'] if job.get('mode') == 'explicit' else make_plan(
+      job['seed'], job['index'], job['tier'], job['sub'])
+  prepare_refs(lane, plan)
   schedule = job.get('schedule') if job.get('mode') == 'explicit' else None
   run = Run(lane, plan, schedule, job.get('keep_log', False))
   outcome = run.execute()
